@@ -102,6 +102,18 @@ mm = re.search(r"last_block_column\s*=\s*([^;]+);", sm) or die("jdcoefct.c: last
 lbc_width = re.sub(r"\s+", "", mm.group(1)) == "compptr->width_in_blocks-1"
 if not re.search(r"block_num\s*<\s*last_block_column", sm) or not re.search(r"block_num\s*\+\s*1\s*<\s*last_block_column", sm):
     die("jdcoefct.c: the right-neighbour tests against last_block_column changed")
+# repair of crop-hazard7 (F49): when first_MCU_col[ci] > 0 the two left-hand columns of the window come from the real
+# neighbours (offsets -1 and, if first_MCU_col[ci] > 1, -2) of all five block rows
+sm_nc = re.sub(r"/\*.*?\*/", " ", sm, flags=re.S)
+smw = re.sub(r"\s+", "", sm_nc)
+rows5 = ["prev_prev_block_row", "prev_block_row", "buffer_ptr", "next_block_row", "next_next_block_row"]
+lefts = [("DC01", "DC02"), ("DC06", "DC07"), ("DC11", "DC12"), ("DC16", "DC17"), ("DC21", "DC22")]
+n_left = sum(1 for (a, b), r in zip(lefts, rows5)
+             if ("%s=(int)%s[left][0];%s=(int)%s[-1][0];" % (a, r, b, r)) in smw)
+guard7 = "if(cinfo->master->first_MCU_col[ci]>0){intleft=cinfo->master->first_MCU_col[ci]>1?-2:-1;" in smw
+if (n_left not in (0, 5)) or (guard7 != (n_left == 5)):
+    die("jdcoefct.c: decompress_smooth_data contains part of the left-neighbour repair (crop-hazard7)")
+left_real = guard7
 
 # TurboJPEG destination row pointers (turbojpeg-mp.c tj3Decompress*)
 tm = rd("turbojpeg-mp.c")
@@ -162,6 +174,8 @@ print("(* jpeg_crop_scanline: `if (master->using_merged_upsample) reinit_upsampl
 print("Definition gen_crop_merged_guard : bool := %s." % ("true" if guard else "false"))
 print("(* jdcoefct.c decompress_smooth_data: last_block_column = compptr->width_in_blocks - 1 (independent of the crop window) *)")
 print("Definition gen_smooth_lbc_is_width : bool := %s." % ("true" if lbc_width else "false"))
+print("(* jdcoefct.c decompress_smooth_data: a region starting inside the image takes the two left-hand window columns from the real neighbours *)")
+print("Definition gen_smooth_left_real : bool := %s." % ("true" if left_real else "false"))
 print("(* turbojpeg-mp.c tj3Decompress*: bottom-up rows are anchored at croppedHeight - i - 1, top-down rows at i *)")
 print("Definition gen_tj_bottomup_anchor_cropped : bool := %s." % ("true" if anchor_ok else "false"))
 print("(* jdmaster.c: first/last_iMCU_col are initialised in master_selection() and no (i)MCU column window is touched in prepare_for_output_pass() *)")
